@@ -187,9 +187,11 @@ Proof.
   - intros s g t _. apply srel_scope_enter.
   - intros s t _. apply srel_scope_enter.
   - apply srel_scope_exit.
-  - intros s c. apply srel_scope_cancel; [discriminate|now right].
+  - intros s c _. apply srel_scope_cancel; [discriminate|now right].
+  - intros s g. apply srel_scope_cancel; [discriminate|now right].
+  - intros s t. apply srel_scope_cancel; [discriminate|now right].
   - intros s c d [].
-  - intros s c _. apply srel_same_scopes; reflexivity.
+  - intros s. eapply srel_trans; [apply srel_new_scope|]. apply srel_same_scopes; reflexivity.
   - apply srel_spawn.
   - intros s t f w.
     apply srel_trans with (suspend_on (fst (call_at s w (TSleep f))) t f); [|apply srel_same_scopes; reflexivity].
@@ -432,11 +434,12 @@ Definition quiet_oks : oks :=
          (fun d => d = None)
          (fun s g => s_deadline (scopes s (g_scope (groups s g))) = None)
          (fun s t => s_deadline (scopes s (k_hscope (tasks s t))) = None)
-         (fun _ _ _ => False).
+         (fun _ _ _ => False)
+         (fun _ _ => True).
 
 Lemma nb_walk : walk_hyps NB quiet_oks.
 Proof.
-  constructor; cbn [quiet_oks ok_enter ok_setdl ok_tick ok_new ok_genter ok_henter ok_trun].
+  constructor; cbn [quiet_oks ok_enter ok_setdl ok_tick ok_new ok_genter ok_henter ok_trun ok_cancel].
   - apply nb_refl.
   - apply nb_trans.
   - apply nb_frame.
@@ -448,9 +451,11 @@ Proof.
   - intros s g t E. now apply nb_scope_enter.
   - intros s t E. now apply nb_scope_enter.
   - apply nb_scope_exit.
-  - apply nb_scope_cancel_false.
+  - intros s c _. apply nb_scope_cancel_false.
+  - intros s g. apply nb_scope_cancel_false.
+  - intros s t. apply nb_scope_cancel_false.
   - intros s c d ->. apply nb_set_deadline_none.
-  - intros s c _. apply nb_same_scopes; reflexivity.
+  - intros s. eapply nb_trans; [apply nb_new_scope|]. apply nb_same_scopes; reflexivity.
   - apply nb_spawn.
   - intros s t f w.
     apply nb_trans with (suspend_on (fst (call_at s w (TSleep f))) t f); [|apply nb_same_scopes; reflexivity].
@@ -477,7 +482,7 @@ Definition quiet_op (s : st) (o : op) : Prop :=
 
 Lemma quiet_op_ok s o : quiet_op s o -> @op_ok quiet_oks s o.
 Proof.
-  destruct o; cbn [quiet_op op_ok quiet_oks ok_enter ok_setdl ok_tick ok_new ok_genter ok_henter ok_trun]; auto.
+  destruct o; cbn [quiet_op op_ok quiet_oks ok_enter ok_setdl ok_tick ok_new ok_genter ok_henter ok_trun ok_cancel]; auto.
   - (* AGroupEnter *) intros E. cbn [upd_group set_groups groups scopes begin_act set_running upd_task set_tasks].
     rewrite upd_same. exact E.
   - (* ARun *) destruct h; cbn [run_ok quiet_oks ok_henter ok_trun]; auto.
